@@ -16,8 +16,10 @@ import (
 	"go/parser"
 	"go/token"
 	"os"
+	"os/exec"
 	"path/filepath"
 	"regexp"
+	"runtime"
 	"sort"
 	"strconv"
 	"strings"
@@ -44,6 +46,8 @@ var (
 	flagMaxPaths = flag.Int("maxpaths", 0, "override max paths")
 	flagWall     = flag.Int("wall", 0, "override wall limit (seconds)")
 	flagMapRev   = flag.Bool("maprev", false, "iterate maps in reverse insertion order")
+	flagWorkers  = flag.Int("workers", 1, "max worker processes for harnesses that declare //vh:split=D")
+	flagPrefixes = flag.String("prefixes", "", "worker mode: JSON file with decision prefixes to explore")
 )
 
 type harnessDecl struct {
@@ -64,13 +68,18 @@ func verifDir() string {
 
 func main() {
 	flag.Parse()
+	if os.Getenv("GOMAXPROCS") == "" {
+		// loading is mostly serial; more threads only burn CPU in the runtime
+		runtime.GOMAXPROCS(3)
+		os.Setenv("GOMAXPROCS", "4") // for the go list child
+	}
 	if *flagPkg == "" {
 		fmt.Fprintln(os.Stderr, "need -pkg")
 		os.Exit(2)
 	}
 	vd := verifDir()
 	hdir := filepath.Join(vd, "harness", *flagPkg)
-	pkgDir := filepath.Join(*flagRepo, *flagPkg)
+	pkgDir := filepath.Join(*flagRepo, pkgPath(*flagPkg))
 	files, _ := filepath.Glob(filepath.Join(hdir, "zz_*.go"))
 	if len(files) == 0 {
 		fmt.Fprintln(os.Stderr, "no harness files in", hdir)
@@ -123,6 +132,29 @@ func main() {
 		panic(err)
 	}
 	overlay[filepath.Join(pkgDir, "zz_vsym.go")] = []byte(strings.Replace(string(vsym), "package PKGNAME", "package "+pkgName, 1))
+	// harness files of other packages this one's harnesses call into
+	if deps, err := os.ReadFile(filepath.Join(hdir, "overlay_deps")); err == nil {
+		for _, dep := range strings.Fields(string(deps)) {
+			dfiles, _ := filepath.Glob(filepath.Join(vd, "harness", dep, "zz_*.go"))
+			depName := ""
+			for _, f := range dfiles {
+				if strings.HasSuffix(f, "_test.go") {
+					continue
+				}
+				src, err := os.ReadFile(f)
+				if err != nil {
+					panic(err)
+				}
+				overlay[filepath.Join(*flagRepo, pkgPath(dep), filepath.Base(f))] = src
+				if af, err := parser.ParseFile(fset, f, src, parser.PackageClauseOnly); err == nil {
+					depName = af.Name.Name
+				}
+			}
+			if depName != "" {
+				overlay[filepath.Join(*flagRepo, pkgPath(dep), "zz_vsym.go")] = []byte(strings.Replace(string(vsym), "package PKGNAME", "package "+depName, 1))
+			}
+		}
+	}
 
 	re := regexp.MustCompile(".*")
 	if *flagRun != "" {
@@ -145,29 +177,53 @@ func main() {
 		Overlay:    overlay,
 		BuildFlags: []string{"-tags=verif", "-mod=mod"},
 		Env:        append(os.Environ(), "GOFLAGS=-mod=mod", "GOPROXY=off", "GOSUMDB=off", "GOTOOLCHAIN=local"),
+		ParseFile: func(fset *token.FileSet, filename string, src []byte) (*ast.File, error) {
+			f, err := parser.ParseFile(fset, filename, src, parser.AllErrors|parser.ParseComments)
+			if err == nil && !keepBodies(filename) {
+				// this package is never executed by the engine: drop function
+				// bodies so that type-checking and SSA construction are cheap.
+				// A call into such a function ends the path as "unsupported".
+				for _, d := range f.Decls {
+					if fd, ok := d.(*ast.FuncDecl); ok {
+						fd.Body = nil
+					}
+				}
+			}
+			return f, err
+		},
 	}
-	pkgs, err := packages.Load(cfg, "./"+*flagPkg)
+	pkgs, err := packages.Load(cfg, "./"+pkgPath(*flagPkg))
 	if err != nil {
 		fmt.Fprintln(os.Stderr, "load:", err)
 		os.Exit(2)
 	}
 	nerr := 0
-	for _, p := range pkgs {
+	packages.Visit(pkgs, nil, func(p *packages.Package) {
+		kept := len(p.GoFiles) > 0 && keepBodies(p.GoFiles[0])
 		for _, e := range p.Errors {
+			if !kept {
+				continue // body-stripped package: unused imports etc.
+			}
 			fmt.Fprintln(os.Stderr, "package error:", e)
 			nerr++
 		}
-	}
+	})
 	if nerr > 0 {
 		os.Exit(2)
 	}
-	prog, spkgs := ssautil.AllPackages(pkgs, ssa.InstantiateGenerics)
+	// like ssautil.AllPackages, but body-stripped dependencies carry soft type
+	// errors (unused imports) that must not disqualify their dependents.
+	prog := ssa.NewProgram(pkgs[0].Fset, ssa.InstantiateGenerics)
 	var target *ssa.Package
-	for _, sp := range spkgs {
-		if sp != nil {
-			target = sp
+	packages.Visit(pkgs, nil, func(p *packages.Package) {
+		if p.Types != nil && p.TypesInfo != nil {
+			sp := prog.CreatePackage(p.Types, p.Syntax, p.TypesInfo, true)
+			if p == pkgs[0] {
+				target = sp
+			}
 		}
-	}
+	})
+	_ = ssautil.AllPackages
 	if target == nil {
 		fmt.Fprintln(os.Stderr, "no SSA package")
 		os.Exit(2)
@@ -254,7 +310,45 @@ func main() {
 			os.Exit(2)
 		}
 		in.solver = s
-		res := in.explore(fn, d.Name)
+		if os.Getenv("GOSYM_PROF") != "" {
+			in.prof = map[string]int{}
+		}
+		var prefixes [][]decision
+		if *flagPrefixes != "" {
+			raw, err := os.ReadFile(*flagPrefixes)
+			if err != nil {
+				panic(err)
+			}
+			if err := json.Unmarshal(raw, &prefixes); err != nil {
+				panic(err)
+			}
+		}
+		splitD := 0
+		if v, ok := d.Dirs["split"]; ok && *flagWorkers > 1 && *flagPrefixes == "" {
+			splitD, _ = strconv.Atoi(v)
+		}
+		in.splitDepth = splitD
+		res := in.explore(fn, d.Name, prefixes)
+		if len(res.Frontier) > 0 {
+			mergeWorkers(res, runWorkers(d.Name, res.Frontier, hc))
+		}
+		if in.prof != nil {
+			type kv struct {
+				k string
+				v int
+			}
+			var kvs []kv
+			for k, v := range in.prof {
+				kvs = append(kvs, kv{k, v})
+			}
+			sort.Slice(kvs, func(i, j int) bool { return kvs[i].v > kvs[j].v })
+			for i, e := range kvs {
+				if i > 25 {
+					break
+				}
+				fmt.Fprintf(os.Stderr, "  prof %6d %s\n", e.v, e.k)
+			}
+		}
 		res.Pkg = *flagPkg
 		s.close()
 		out.Results = append(out.Results, res)
@@ -282,6 +376,141 @@ func main() {
 	} else {
 		fmt.Println(string(b))
 	}
+}
+
+// runWorkers distributes prefixes over worker processes of this binary.
+func runWorkers(name string, frontier [][]decision, hc harnessCfg) []*harnessResult {
+	n := *flagWorkers
+	if n > len(frontier) {
+		n = len(frontier)
+	}
+	groups := make([][][]decision, n)
+	for i, pf := range frontier {
+		groups[i%n] = append(groups[i%n], pf)
+	}
+	dir, err := os.MkdirTemp("", "gosym_workers_")
+	if err != nil {
+		panic(err)
+	}
+	defer os.RemoveAll(dir)
+	exe, _ := os.Executable()
+	type job struct {
+		cmd *exec.Cmd
+		out string
+	}
+	var jobs []job
+	for i, g := range groups {
+		pf := filepath.Join(dir, fmt.Sprintf("prefix_%d.json", i))
+		raw, _ := json.Marshal(g)
+		os.WriteFile(pf, raw, 0o644)
+		out := filepath.Join(dir, fmt.Sprintf("out_%d.json", i))
+		args := []string{"-pkg", *flagPkg, "-run", name, "-tier", *flagTier, "-prefixes", pf, "-out", out, "-verif", verifDir(), "-repo", *flagRepo}
+		if *flagSolver != "" {
+			args = append(args, "-solver", *flagSolver)
+		}
+		if *flagWall > 0 {
+			args = append(args, "-wall", strconv.Itoa(*flagWall))
+		}
+		if *flagMapRev {
+			args = append(args, "-maprev")
+		}
+		cmd := exec.Command(exe, args...)
+		cmd.Stderr = nil
+		if err := cmd.Start(); err != nil {
+			panic(err)
+		}
+		jobs = append(jobs, job{cmd, out})
+	}
+	var results []*harnessResult
+	for _, j := range jobs {
+		err := j.cmd.Wait()
+		raw, rerr := os.ReadFile(j.out)
+		if err != nil || rerr != nil {
+			results = append(results, &harnessResult{Name: name, EngineErrors: []string{fmt.Sprintf("worker failed: %v %v", err, rerr)}})
+			continue
+		}
+		var o struct {
+			Results []*harnessResult `json:"results"`
+		}
+		if err := json.Unmarshal(raw, &o); err != nil || len(o.Results) != 1 {
+			results = append(results, &harnessResult{Name: name, EngineErrors: []string{"worker output unreadable"}})
+			continue
+		}
+		results = append(results, o.Results[0])
+	}
+	return results
+}
+
+func mergeWorkers(res *harnessResult, ws []*harnessResult) {
+	res.Workers = len(ws)
+	funcs := map[string]bool{}
+	for _, f := range res.Funcs {
+		funcs[f] = true
+	}
+	addMap := func(dst, src map[string]int) map[string]int {
+		if dst == nil {
+			dst = map[string]int{}
+		}
+		for k, v := range src {
+			dst[k] += v
+		}
+		return dst
+	}
+	for _, w := range ws {
+		res.Paths += w.Paths
+		res.Decisions += w.Decisions
+		res.FeasQueries += w.FeasQueries
+		res.Assertions += w.Assertions
+		res.Discharged += w.Discharged
+		res.Inconclusive += w.Inconclusive
+		res.UnknownFeas += w.UnknownFeas
+		res.AssumeEnds += w.AssumeEnds
+		res.Unsupported = addMap(res.Unsupported, w.Unsupported)
+		res.BoundEnds = addMap(res.BoundEnds, w.BoundEnds)
+		res.Stubs = addMap(res.Stubs, w.Stubs)
+		res.Reached = addMap(res.Reached, w.Reached)
+		for _, v := range w.Violations {
+			dup := false
+			for _, o := range res.Violations {
+				if o.Msg == v.Msg && o.Kind == v.Kind {
+					dup = true
+				}
+			}
+			if !dup {
+				res.Violations = append(res.Violations, v)
+			}
+		}
+		for _, f := range w.Funcs {
+			funcs[f] = true
+		}
+		res.SolverQueries += w.SolverQueries
+		res.SolverSecs += w.SolverSecs
+		res.SolverErrors = append(res.SolverErrors, w.SolverErrors...)
+		res.EngineErrors = append(res.EngineErrors, w.EngineErrors...)
+		if len(res.Samples) < 8 {
+			res.Samples = append(res.Samples, w.Samples...)
+		}
+		if !w.Complete {
+			res.Complete = false
+		}
+		if w.WallS > 0 {
+			res.WallS += 0
+		}
+	}
+	res.Funcs = res.Funcs[:0]
+	for f := range funcs {
+		res.Funcs = append(res.Funcs, f)
+	}
+	sort.Strings(res.Funcs)
+}
+
+// pkgPath maps a harness directory name to the package path relative to the
+// module root ("_root" is the module's root package).
+func pkgPath(p string) string {
+	if p == "_root" {
+		return "."
+	}
+	return p
 }
 
 func applyDirs(hc *harnessCfg, dirs map[string]string, tier string) {
@@ -323,6 +552,9 @@ func applyDirs(hc *harnessCfg, dirs map[string]string, tier string) {
 	if n, ok := geti("sched"); ok {
 		hc.maxSchedPoints = n
 	}
+	if n, ok := geti("indexfork"); ok {
+		hc.forkIndexBelow = n
+	}
 	if n, ok := geti("cpus"); ok {
 		hc.numCPU = n
 	}
@@ -332,4 +564,39 @@ func applyDirs(hc *harnessCfg, dirs map[string]string, tier string) {
 	if _, ok := dirs["concurrent"]; ok {
 		hc.concurrent = true
 	}
+}
+
+var stdKeep = map[string]bool{
+	"errors": true, "sort": true, "strings": true, "strconv": true, "bytes": true, "unicode": true,
+	"unicode/utf8": true, "unicode/utf16": true, "math": true, "math/bits": true, "math/cmplx": true,
+	"encoding/binary": true, "container/heap": true, "container/list": true, "slices": true, "maps": true,
+	"cmp": true, "io": true, "sync": true, "sync/atomic": true, "hash/fnv": true, "hash": true, "iter": true,
+	"internal/itoa": true, "internal/stringslite": true, "hash/crc32": true, "encoding/hex": true,
+}
+
+var goroot string
+
+// keepBodies decides whether the functions of the file's package are kept for
+// symbolic execution.
+func keepBodies(filename string) bool {
+	if strings.HasPrefix(filename, "/repo/") || strings.HasPrefix(filename, *flagRepo) {
+		return true
+	}
+	for _, m := range []string{"/github.com/golang/geo@", "/golang.org/x/mod@", "/golang.org/x/exp@", "/golang.org/x/sync@"} {
+		if strings.Contains(filename, m) {
+			return true
+		}
+	}
+	if goroot == "" {
+		goroot = runtime.GOROOT()
+		if out, err := exec.Command("go", "env", "GOROOT").Output(); err == nil {
+			goroot = strings.TrimSpace(string(out))
+		}
+	}
+	src := filepath.Join(goroot, "src") + "/"
+	if strings.HasPrefix(filename, src) {
+		dir := filepath.Dir(strings.TrimPrefix(filename, src))
+		return stdKeep[dir]
+	}
+	return false
 }
